@@ -814,18 +814,20 @@ def form_ops(sch, n, level, depth, form, width):
     return ops
 
 
-def history_ops(sch, level, source):
-    """column assignment; in the file-backed programs also replace with a container of the declared type for the first
-    and the last column (every column at the other levels): the tables that chains of replace / assignment go through"""
+def history_ops(sch, level, source, depth):
+    """column assignment (tables built in memory: of the last column, and as first operation also after a read; not at
+    level mini, at level full as first operation only); in the file-backed programs of the first and the last column (full: every column), and replace with a
+    container of the declared type for the same columns: the tables that chains of replace / assignment go through"""
     full, mini = level == "full", level == "mini"
     first_last = [f for i, f in enumerate(sch.fields) if i in (0, len(sch.fields) - 1)]
     ops = []
     if source:
         ops += [["replace", f.name, "native"] for f in (first_last if mini else sch.fields)
                 if not (f is sch.fields[-1] and not mini)]          # (the last column: in the common list)
-    if source or not mini:
-        ops += [["assign", f.name, "native"] for f in (sch.fields if full else (first_last if source else sch.fields[-1:]))]
-    if not mini:
+        ops += [["assign", f.name, "native"] for f in (sch.fields if full else first_last)]
+    elif not mini and not (full and depth > 0):
+        ops.append(["assign", sch.fields[-1].name, "native"])       # (full x full: as first operation only)
+    if not mini and (source or depth == 0):
         ops.append(["assign", sch.fields[-1].name, "after-read"])
     return ops
 
@@ -844,7 +846,7 @@ def table_ops(sch, n, level, depth, form=None, width=None, source=None):
         return ops
     full, mini = level == "full", level == "mini"
     ops = form_ops(sch, n, level, depth, form, width) if form else []
-    ops += history_ops(sch, level, source)
+    ops += history_ops(sch, level, source, depth)
     # boolean masks
     if n <= 3 and full:
         masks = [list(m) for m in itertools.product([False, True], repeat=n)]
@@ -1285,13 +1287,17 @@ def explore(ctx, node, depth, levels, seen):
         child = apply_op(ctx, node, op)
         if child is None:
             continue
-        key = (ctx.sch0.name, len(ctx.base_rows), tuple(o[0] + op_qual(o, 1) for o in child.path),
+        # (tables built in memory: what follows an assignment does not depend on whether the table was read before it)
+        key = (ctx.sch0.name, len(ctx.base_rows),
+               tuple(o[0] + (op_qual(o, 1) if ctx.source or o[0] != "assign" else "") for o in child.path),
                json.dumps(child.rows), child.sch.name, len(child.sch.fields), tuple(levels[depth + 1:]))
         if ctx.form:
             key += (ctx.form, ctx.width)
         if ctx.source:
             key += ("file", ctx.source)
         if key in seen:
+            if op[0] == "assign" and not ctx.source:
+                all_terminals(ctx, child)
             continue
         seen.add(key)
         explore(ctx, child, depth + 1, levels, seen)
@@ -1713,7 +1719,7 @@ def reencode_cases(quick):
                 elif near:
                     plan = [(False, (0, 1, 2), ("construct", "replace", "add")), (True, (0, 1, 2), ("construct", "replace", "add"))]
                 else:
-                    plan = [(False, (1,), ("construct", "replace", "add")), (True, (1,), ("construct",))]
+                    plan = [(False, (1,), ("construct",)), (True, (1,), ("construct",))]
                 for flat, variants, ops in plan:
                     if dst in FLAT_ONLY and not flat:
                         flat = True                 # a field of one letter per row is given one letter per row
@@ -1807,19 +1813,20 @@ def run(tier="quick", seed=0):
         "tables with a context (set_context, as attached by the file readers)": "K_str and Interval, n in {0,1,3}: rep (depth 1)",
         "histories": "in every program above and below: after each operation every earlier table of the program is read back; "
                      "column assignment (container of the declared type; on an unread table and on one converted to rows before) "
-                     "is an operation at the levels full (every column) and rep (last column); level hist = replace / assign of "
+                     "is an operation at the levels full and rep (tables built in memory: last column, after a read only as first "
+                     "operation; file-backed: first and last / every column); level hist = replace / assign of "
                      "the first and last column, assign after a read, one mask / slice / index array / concatenation / sort",
         "file-backed tables (bnp.open(path).read(); formats " + ", ".join(FILE_SPECS) + "; rows limited to values the text "
         "formats hold: non-empty names, integers >= 0, short decimals; operands of concatenate are read from files too)":
             ("bed n=3: rep; bed, fastq n=3 and bed n=1: hist x hist; bed6 bedgraph chrom.sizes narrowPeak pairs n=3: hist" if quick else
-             "bed bed6 bedgraph fastq chrom.sizes n=3: rep x mini; narrowPeak pairs n=3: rep; bed fastq n=3: hist x hist x hist; "
-             "every format n in {1,2}: hist x hist"),
+             "bed fastq chrom.sizes n=3: rep x mini; bed6 bedgraph narrowPeak pairs n=3: rep; bed n=3: hist x hist x hist; "
+             "fastq bed6 bedgraph n=3 and bed fastq chrom.sizes bedgraph n in {1,2}: hist x hist; bed6 narrowPeak pairs n in {1,2}: hist"),
         "re-encode": "source x declared alphabet: every ordered pair of %d alphabets (%s) x largest letter present %s x "
                      "rows (1 row; 3 rows with an empty one; 3 rows) x ragged / one letter per row x constructor, bnp.replace, "
                      "add_fields (typed)%s" % (len(ENCODINGS), ", ".join(ENCODINGS),
                                               "none, the letter before / at / behind the first difference, the last letter" if quick else "none .. last letter",
-                                              "; all of that where the largest letter is next to the first difference, else (quick: also "
-                                              "before / behind it) one row set, ragged with the three operations, flat with the constructor"),
+                                              "; all of that where the largest letter is next to the first difference (quick: at it; before it "
+                                              "one row set), else one row set with the constructor"),
         "observation": "after every operation: column containers (class invariant len(column)=len(table)), operands re-read; per node "
                        "t[i] for every i in [-n,n), iteration, tolist/toiter, todict, topandas - each on a table nobody has read before"}
     # 1 datatypes table
@@ -1935,8 +1942,9 @@ def run(tier="quick", seed=0):
         splan = [(["bed"], [3], ("rep",)), (["bed", "fastq"], [3], ("hist", "hist")), (["bed"], [1], ("hist", "hist")),
                  (["bed6", "bedgraph", "sizes", "narrowPeak", "pairs"], [3], ("hist",))]
     else:
-        splan = [(["bed", "bed6", "bedgraph", "fastq", "sizes"], [3], ("rep", "mini")), (["narrowPeak", "pairs"], [3], ("rep",)),
-                 (["bed", "fastq"], [3], ("hist", "hist", "hist")), (list(FILE_SPECS), [1, 2], ("hist", "hist"))]
+        splan = [(["bed", "fastq", "sizes"], [3], ("rep", "mini")), (["bed6", "bedgraph", "narrowPeak", "pairs"], [3], ("rep",)),
+                 (["bed"], [3], ("hist", "hist", "hist")), (["fastq", "bed6", "bedgraph"], [3], ("hist", "hist")),
+                 (["bed", "fastq", "sizes", "bedgraph"], [1, 2], ("hist", "hist")), (["bed6", "narrowPeak", "pairs"], [1, 2], ("hist",))]
     try:
         for sources, ns, levels in splan:
             for src in sources:
